@@ -617,7 +617,7 @@ theorem WFChain.step {w : World} (h : WFChain w) (op : Op) : WFChain (w.step op)
         · split <;> rfl
   | tracer t => simp only []; exact ⟨h.chain, h.home, h.nodup, h.deadW, h.freshM, h.freshW⟩
   | killtracer t => simp only []; exact ⟨h.chain, h.home, h.nodup, h.deadW, h.freshM, h.freshW⟩
-  | setreporter r => simp only []; exact h.mw ⟨rfl, rfl, rfl, rfl, rfl, rfl⟩
+  | setreporter r ok => simp only []; exact h.mw ⟨rfl, rfl, rfl, rfl, rfl, rfl⟩
 
 end Tromp
 
@@ -733,6 +733,6 @@ theorem WFTr.step {w : World} (h : WFTr w) (op : Op) : WFTr (w.step op).1 := by
   | killtracer t =>
     simp only []
     exact ⟨h.nodup.sublist List.filter_sublist, fun t' ht' => h.bound t' (List.mem_filter.mp ht').1⟩
-  | setreporter r => simp only []; exact h.mw ⟨rfl, rfl, rfl, rfl, rfl, rfl⟩
+  | setreporter r ok => simp only []; exact h.mw ⟨rfl, rfl, rfl, rfl, rfl, rfl⟩
 
 end Tromp
